@@ -1,5 +1,6 @@
 mod cell;
 mod chain;
+mod c03;
 mod c15;
 mod conc;
 mod d9;
@@ -154,6 +155,10 @@ fn main() {
             let n: usize = arg(&args, "--cases").and_then(|s| s.parse().ok()).unwrap_or(if thorough { 6000 } else { 600 });
             let (stalls, steps, fails) = ebrstall::run(&out, seed, thorough, n);
             println!("ebr-stall: cases={} steps={} cases_with_stalled_traversal={} property_failures={}", n, steps, stalls, fails);
+        }
+        "c03" => {
+            let (checks, _p, fails) = c03::run(&out, seed, thorough);
+            println!("c03: property_checks={} property_failures={}", checks, fails);
         }
         "c15" => {
             let n: usize = arg(&args, "--cases").and_then(|s| s.parse().ok()).unwrap_or(if thorough { 400 } else { 60 });
